@@ -22,6 +22,24 @@ type WorkPool struct {
 	max     int
 	sem     chan struct{}
 	spawn   func()
+	unknowns int
+	abort   bool
+}
+
+func (p *WorkPool) noteUnknown() bool {
+	p.mu.Lock()
+	defer p.mu.Unlock()
+	p.unknowns++
+	if p.unknowns > 12 {
+		p.abort = true
+	}
+	return p.abort
+}
+
+func (p *WorkPool) aborted() bool {
+	p.mu.Lock()
+	defer p.mu.Unlock()
+	return p.abort
 }
 
 func (p *WorkPool) hungry() bool {
@@ -164,10 +182,14 @@ func runHarness(L *Loaded, H *Harness, sem chan struct{}, maxWorkers int, debug 
 				for m.RunOne() {
 					rmu.Lock()
 					totalPaths++
-					over := totalPaths > H.MaxPaths || res.Err != ""
+					over := totalPaths > H.MaxPaths || res.Err != "" || pool.aborted()
 					rmu.Unlock()
 					if over {
-						m.inconclusive(fmt.Sprintf("path limit %d reached", H.MaxPaths))
+						if pool.aborted() {
+							m.inconclusive("exploration aborted: too many solver unknowns/timeouts (query timeout " + H.Opts["qtimeout"] + "s)")
+						} else {
+							m.inconclusive(fmt.Sprintf("path limit %d reached", H.MaxPaths))
+						}
 						break
 					}
 				}
@@ -372,7 +394,7 @@ func runProperty(repo, verif, prop, tier, only string, workers int, debug, noRep
 		}
 		for _, f := range r.Findings {
 			if !noReplay {
-				out, err := rp.Replay(r.H, f, "cex-"+f.Assertion)
+				out, err := rp.Replay(r.H, f, "cex-"+f.Assertion+"-"+f.Site)
 				if err != nil {
 					f.Confirmed = "replay-error: " + err.Error()
 				} else if matchOutcome(f, out) {
